@@ -9,6 +9,7 @@ META = {
  "C06": dict(level="proof", explanation="per-cycle routing/ownership/response postconditions on the real Wishbone arbiter, decoder, shared interconnect and crossbar with real SoCRegion decoders"),
  "C07": dict(level="proof", explanation="symbolic-address (tracked byte) contracts on the real wishbone.SRAM and transaction-translation contracts on the real converters, remapper and CSR bridge"),
  "C16": dict(level="proof", explanation="layout/round-trip postconditions of Header, packet-level ghost contracts on Packetizer/Depacketizer/PacketFIFO, atomicity invariants on Arbiter/Dispatcher"),
+ "C10": dict(level="proof", explanation="AXIBurst2Beat against the AMBA address formula (spec function) with a ghost beat index; converter address-channel translation postconditions"),
  "C04": dict(level="proof", explanation="hold-until-ready two-cycle postcondition and bounded-response (progress) obligations from every invariant state of the real stream/packet modules"),
 }
 
@@ -43,5 +44,7 @@ CLAIMS["C07"] = _hw("DESIGN.md §3 C07", "wishbone.SRAM (classic cycles; read-on
                     "Cache, SRAM burst cycles and converter burst tags are not covered (tier 2); meta-lemmas M3/M5 are paper arguments.")
 CLAIMS["C16"] = _hw("DESIGN.md §3 C16", "Header.encode/decode against a bit-level layout spec and as inverses (all field values); Packetizer and Depacketizer (aligned headers) emit/consume exactly the prescribed header words then pass the payload through; PacketFIFO releases only complete packets with that packet's parameters; Arbiter and Dispatcher never change grant/destination inside a started packet (selector changes mid-packet are free inputs).",
                     "Unaligned (residue) packetizer/depacketizer modes are not covered.")
+CLAIMS["C10"] = _hw("DESIGN.md §3 C10", "AXIBurst2Beat: with address, len, size and burst type all symbolic, the beat address (at transfer-size granularity) equals the AMBA formula of the ghost beat index, first/last mark n==0/n==len, exactly len+1 beats, request consumed once with the last beat, stalled beats held. AXIUp/DownConverter: translated AW/AR transfer the same bytes from the same aligned address for INCR full-width bursts; side bands.",
+                    "Known findings: down-converter len overflow, narrow bursts, R side band not held.")
 _NYB = "check not built yet in this session (see DESIGN.md build order); will be claimed when its contracts are committed"
 NOT_APPLICABLE = {p: _NYB for p in ["C%02d" % i for i in range(1, 21)]}
